@@ -271,7 +271,13 @@ impl StdInWorker for ScanStdin {
   ) -> Result<Vec<P::Processed>> {
     use ast_grep_core::Language;
     let lang = self.rules[0].language;
-    let combined = CombinedScan::new(self.rules.iter().collect());
+    // like scanning a file: only enabled rules of the source's language apply
+    let rules = self
+      .rules
+      .iter()
+      .filter(|r| r.language == lang && !matches!(r.severity, Severity::Off))
+      .collect();
+    let combined = CombinedScan::new(rules);
     let grep = lang.ast_grep(src);
     let path = Path::new("STDIN");
     let file_content = grep.source().to_string();
